@@ -37,6 +37,20 @@ func gen(seed int64, tier string, idx int) *pipe.Scenario {
 	if g.R.Intn(4) == 0 {
 		sc.Steps = append(sc.Steps, pipe.Step{AtEvent: 30 + g.R.Intn(300), Op: "stopwait"})
 	}
+	if idx%16 == 14 {
+		// slow commits while the pipeline is force stopped: the teardown's forced
+		// flush (cancelled context) must still queue behind the flush in flight
+		sc.Steps = []pipe.Step{{AtEvent: 40 + g.R.Intn(200), Op: "forcestop"}}
+		sc.Faults = nil
+		// every flush sleeps a pseudo-random time right before its commit
+		sc.Points = map[string]int{"connector.persister.before-commit": 8000 + g.R.Intn(20000)}
+		sc.PointSeed = g.R.Int63()
+		// timer-driven flushes (a bundle-driven flush would make Source.Ack itself
+		// wait for the flush in flight, so nothing could pile up behind it)
+		sc.PersistDelayUs = 200
+		sc.PersistBundle = 100
+		sc.Store = "badger"
+	}
 	if idx%16 == 6 {
 		// the stored position must not pass a record that was neither delivered
 		// nor dead-lettered, also when dead-lettering fails inside a fan-out
